@@ -14,3 +14,11 @@ Definition c14_case : Type :=
 Definition chk_decompose (c : c14_case) : bool :=
   let '(env, ci, nc, ids, maps, e, untouched) := c in
   res_beq (pair_beq circ_beq Nat.eqb) (decompose env ci nc ids maps) e && untouched.
+
+(* stream "preset": a basis_id is put on a placeholder through the setter or a constructor.
+   case = (basis environment, basis handle of the gate, attempted id, outcome of the attempt) *)
+Definition c14_preset_case : Type := benv * nat * Z * res unit.
+
+Definition chk_preset (c : c14_preset_case) : bool :=
+  let '(env, b, m, e) := c in
+  res_beq (fun _ _ => true) (setter env b m) e.
